@@ -618,11 +618,11 @@ def handle (j : Json) : Except String Verdict := do
                 c10Sig := s!"C10/build-after-failed-push/{to}"
                 c10Why := s!"to_{to} succeeds on a builder in which an earlier push failed (op #{k})"
               let lens := arrs.map fun a => (decodeAll a).length
-              let wf := arrs.length == fields.length && lens.all (· == okRows) &&
+              let wf := arrs.length == fields.length && ((fields.zip lens).all fun (f, l) => hasFsb0 f || l == okRows) &&   -- a FixedSizeBinary(0) column has lost its row count: known finding C03-fixed-size-binary-0, decided by the build suite
                 (to != "marrow" || fields.any hasFsb0 || (fields.zip arrs).all fun (f, a) => SaModel.Spec.WF f a)
               if !wf && c03Sig == "" then
                 c03 := "fail"
-                c03Sig := s!"C03/after-failed-push/{to}/{if arrs.length != fields.length then "count" else if !lens.all (· == okRows) then "lengths" else "not-wf"}"
+                c03Sig := s!"C03/after-failed-push/{to}/{if arrs.length != fields.length then "count" else if !((fields.zip lens).all fun (f, l) => hasFsb0 f || l == okRows) then "lengths" else "not-wf"}"
                 c03Why := s!"to_{to} (op #{k}) after {okRows} successful pushes returns arrays of lengths {repr lens}"
               okRows := 0
             else if cls == "err" && !gaps.isEmpty then
